@@ -29,19 +29,19 @@ import numpy as np
 from .. import tlc, ftable
 from ..common import Report, MachineryError, seed, quiet, workdir, WORK, VERIF
 from . import _ksym as KS
-from .c03 import run_model, tla_set, vec, energies_safe, compare_resultdicts, cleanup, cpu_seconds, WORKERS
+from .c03 import run_model, tla_set, vec, energies_safe, compare_resultdicts, cleanup, cpu_seconds, cpu_split, WORKERS
 
 PROPS = {
     "C07": dict(level="model_checking",
                 technique="TLC exhaustive on IrredKernel.tla (irreducible + symmetrised integral = full integral = full integral with "
                           "symmetrisation alone, to_grid reproduces the tabulated field, for every catalogue group x grid x factorisation x "
                           "tensor rank 0-2 x TR/inversion behaviour, for hash fields and - model only - for the delta basis of all integer "
-                          "fields) + replay of finished TLC states (every group and grid, seeded sample of factorisations: quick 40 of ~160 run "
+                          "fields) + replay of finished TLC states (every group and grid, seeded sample of factorisations: quick at most 40 run "
                           "configurations, thorough 500) through the real run() with the specification's covariant field injected via "
                           "data_K.kpoints_all + TLC validation of recorded runs + float comparisons (fields with the transforms outside the "
                           "model, all real calculators on symmetric models)",
                 text="TLC builds covariant integer tensor fields (rank 0-2, even/odd/transposing under time reversal and inversion) for the "
-                     "catalogue of magnetic point groups (quick: 10, thorough: 25) and checks that the weighted, symmetrised sum over the "
+                     "catalogue of magnetic point groups (quick: 9 and without the transposing rank-2 behaviour, thorough: 25) and checks that the weighted, symmetrised sum over the "
                      "irreducible K-points equals the plain sum over the full grid and that the symmetry images collected by to_grid reproduce "
                      "the field; a wrongly declared parity is rejected. Sampled finished states are executed on the real run() "
                      "(use_irred_kpt=True vs use_irred_kpt=False, symmetrize=False; symmetrize=True alone for a subset) with a synthetic "
@@ -159,7 +159,8 @@ def part_kernel(rep, thorough, rng, tag):
         cfgs = [("ik", ik_cfg(cart + hexg, "NSt", [0, 1, 2], [1, 2], False, True)),
                 ("ik_big", ik_cfg(["C4v", "mFe", "T23", "Oh"], "NSb", [0, 1, 2], [1], False, False))]
     else:
-        cfgs = [("ik", ik_cfg(["C1", "T", "C2v", "C4v", "mC4v", "mFe", "Oh", "H6v", "H3T", "mH6v"], "NSq", [0, 1, 2], [1], False, True))]
+        # quick: transposing rank-2 behaviour (transform_trans) is left to the thorough tier and to the float fields
+        cfgs = [("ik", ik_cfg(["T", "C2v", "C4v", "mC4v", "mFe", "Oh", "H6v", "H3T", "mH6v"], "NSq", [0, 1, 2], [1], False, False))]
     spec_groups = {}
     runs = {}          # (grp, N, div, fft) -> {(rank, tTR, tInv): {seed: state}}
     for name, cfg in cfgs:
@@ -279,13 +280,13 @@ def part_model_only(rep, thorough, tag):
     if thorough:
         cfg = ik_cfg(sorted(KS.CART) + sorted(KS.HEX), "NSd", [0, 1, 2], [], True, True)
     else:
-        cfg = ik_cfg(["C4v", "mC4", "H6v"], "NSd", [0, 1], [], True, False)
+        cfg = ik_cfg(["C4v", "mC4", "H6v"], "NSdq", [0, 1], [], True, False)
     st = run_model(rep, "MC_IrredKernel.tla", cfg, "delta", dump=False, timeout=3000, workroot=os.path.join(WORK, tag))
     ftable.spec_violation(rep, st, "c07_delta")
     rep.add_tlc("c07_delta", st)
     rep.part("c07_delta", replayed_on_the_code=False)
     # sensitivity: a wrongly declared parity must break the property
-    for decl, groups in (("flipInv", ["C4v"]), ("flipTR", ["T", "mFe"])):
+    for decl, groups in ((("flipInv", ["C4v"]), ("flipTR", ["T", "mFe"])) if thorough else (("flipTR", ["T", "mFe"]),)):
         s2 = tlc.run_tlc("MC_IrredKernel.tla", ik_cfg(groups, "NSs", [0, 1, 2], [1], False, False, decl), decl, workers=min(4, WORKERS),
                          coverage=False, timeout=900, workroot=os.path.join(WORK, tag))
         v = s2.get("violation")
@@ -413,6 +414,7 @@ FLOAT_CASES_QUICK = [
     ("mH6v", 2, T_(-1, perm=(1, 0)), T_(1), "transpose_axes", False),             # hexagonal rank 2, transposing and odd under TR
     ("TeT", 2, T_(1), T_(1), "transpose_axes", False),
     ("H3T", 1, T_(-1), T_(1), "transpose_axes", False),                           # axial vector odd under TR
+    ("mFe", 2, T_(1, perm=(1, 0)), T_(1), "transpose_axes", False),               # transform_trans (OpticalConductivity), cubic
 ]
 FLOAT_CASES_MORE = [
     ("Oh", 3, T_(1), T_(-1), "transpose_axes", False), ("SiT", 3, T_(-1, perm=(0, 2, 1)), T_(1), "transpose_axes", False),
@@ -442,11 +444,14 @@ def part_float_fields(rep, thorough, rng, tag, configs):
         if cand:
             picks = [cand[rng.randrange(len(cand))] for _ in range(nfields)]
         else:          # group not in the (quick) model: a grid on which both factors are symmetric
-            N = (4, 4, 1) if KS.is_cart(grp) else (3, 3, 2)
-            div = (2, 2, 1) if KS.is_cart(grp) else (3, 3, 1)
-            if not (KS.symmetric_grid(N, G) and KS.symmetric_grid(div, G)):
+            picks = None
+            for N, div in (((4, 4, 1), (2, 2, 1)), ((2, 2, 2), (1, 1, 1)), ((2, 2, 2), (2, 2, 2))) if KS.is_cart(grp) else (((3, 3, 2), (3, 3, 1)),):
+                fft = tuple(n // d for n, d in zip(N, div))
+                if KS.symmetric_grid(N, G) and KS.symmetric_grid(div, G) and KS.symmetric_grid(fft, G):
+                    picks = [(grp, N, div, fft)] * nfields
+                    break
+            if picks is None:
                 raise MachineryError(f"no symmetric grid chosen for {grp}")
-            picks = [(grp, N, div, tuple(n // d for n, d in zip(N, div)))] * nfields
         tTR, tInv = KS.make_transform(sTR, how), KS.make_transform(sInv, how)
         for (_, N, div, fft) in picks:
             Ntot = int(np.prod(N))
@@ -848,6 +853,11 @@ def part_numeric(rep, thorough, rng, tag):
         raise MachineryError("real-calculator part made no comparison")
 
 
+def progress(what, t0):
+    import time
+    print(f"[C07] {what} done: cpu {cpu_seconds() - t0:.0f} s (python {cpu_split()['python']:.0f}), wall clock {time.strftime('%H:%M:%S')}", flush=True)
+
+
 def check(pid, tier):
     rep = Report(pid, tier, "model_checking")
     thorough = tier == "thorough"
@@ -867,17 +877,23 @@ def check(pid, tier):
     try:
         t0 = cpu_seconds()
         spec_groups, configs = part_kernel(rep, thorough, rng, tag)
+        progress("kernel", t0)
         part_model_only(rep, thorough, tag)
-        part_records(rep, random_records(rep, 300 if thorough else 15, rng, tag), tag)
+        progress("model_only", t0)
+        part_records(rep, random_records(rep, 300 if thorough else 10, rng, tag), tag)
         t1 = cpu_seconds()
+        progress("records", t0)
         part_float_fields(rep, thorough, rng, tag, configs)
         t2 = cpu_seconds()
+        progress("float_fields", t0)
         part_all_calculators(rep, thorough, rng, tag)
         t3 = cpu_seconds()
+        progress("all_calculators", t0)
         part_numeric(rep, thorough, rng, tag)
+        progress("real_calculators", t0)
         KS.flush_private(rep)
         rep.part("cpu_seconds", exact_parts=round(t1 - t0, 1), float_fields=round(t2 - t1, 1), all_calculators=round(t3 - t2, 1),
-                 real_calculators=round(cpu_seconds() - t3, 1))
+                 real_calculators=round(cpu_seconds() - t3, 1), **cpu_split())
     except Exception:
         if rep.violations:          # never lose what was already found
             KS.flush_private(rep)
